@@ -1,5 +1,10 @@
 package tls
 
+import (
+	"crypto/mlkem"
+	"errors"
+)
+
 //verif:harness C34 server_decodes_hostile_messages unwind=600 paths=400000 wall=1200
 //verif:stub (*utls.Conn).sendAlert zzStubSendAlert
 //verif:expect end
@@ -46,4 +51,53 @@ func zzC34ClientHelloExtensionsHostile() {
 		}
 	}
 	verifReach("end")
+}
+
+func zzStubNewEncapsulationKey768(b []byte) (*mlkem.EncapsulationKey768, error) {
+	if len(b) != mlkem.EncapsulationKeySize768 || verifBool("mlkem-key-invalid") {
+		return nil, errors.New("mlkem: invalid encapsulation key")
+	}
+	return &mlkem.EncapsulationKey768{}, nil
+}
+
+func zzStubEncapsulate(k *mlkem.EncapsulationKey768) (sharedKey, ciphertext []byte) {
+	return verifBytes("mlkem-shared", 32), make([]byte, mlkem.CiphertextSize768)
+}
+
+//verif:harness C34 server_key_share_of_any_length unwind=4000 paths=40000
+//verif:stub (*utls.Conn).sendAlert zzStubSendAlert
+//verif:stub (crypto.Hash).New zzStubHashNew
+//verif:stub (*crypto/ecdh.PrivateKey).ECDH zzStubECDH
+//verif:stub crypto/mlkem.NewEncapsulationKey768 zzStubNewEncapsulationKey768
+//verif:stub (*crypto/mlkem.EncapsulationKey768).Encapsulate zzStubEncapsulate
+//verif:expect accepted refused
+//verif:assume ECDH and ML-KEM are opaque: NewEncapsulationKey768 rejects a key of the wrong size (its documented contract) and may reject any other; shared secrets are arbitrary
+//verif:doc serverHandshakeStateTLS13.processClientHello (default curve preferences, so the hybrid group is preferred) on a TLS 1.3 ClientHello whose selected key share - X25519MLKEM768, X25519 or P-256 - has a length from a stated set around every boundary (0, 1, 31, 32, 33, 64, 65, 66, 1183, 1184, 1185, 1215, 1216, 1217, 1300) and symbolic leading bytes: the function returns (success or error with an alert) and never panics; success only for the exact size of the group.
+func zzC34ServerKeyShareOfAnyLength() {
+	zzAlerts = nil
+	groups := []CurveID{X25519MLKEM768, X25519, CurveP256}
+	g := groups[verifChoice("group", len(groups))]
+	lens := []int{0, 1, 31, 32, 33, 64, 65, 66, 1183, 1184, 1185, 1215, 1216, 1217, 1300}
+	n := lens[verifChoice("share-length", len(lens))]
+	data := make([]byte, n)
+	if n > 0 {
+		data[0] = verifU8("share-byte0")
+	}
+	if n > 1 {
+		data[n-1] = verifU8("share-last")
+	}
+	c := &Conn{config: &Config{Rand: zzRandReader{}, Time: zzFixedTime}, vers: VersionTLS13}
+	ch := &clientHelloMsg{vers: VersionTLS12, random: make([]byte, 32), sessionId: make([]byte, 32), cipherSuites: []uint16{TLS_AES_128_GCM_SHA256},
+		compressionMethods: []uint8{compressionNone}, supportedVersions: []uint16{VersionTLS13}, supportedCurves: []CurveID{g},
+		keyShares: []keyShare{{group: g, data: data}}, supportedSignatureAlgorithms: []SignatureScheme{ECDSAWithP256AndSHA256}}
+	hs := &serverHandshakeStateTLS13{c: c, clientHello: ch}
+	err := hs.processClientHello()
+	want := map[CurveID]int{X25519MLKEM768: 1216, X25519: 32, CurveP256: 65}[g]
+	if err == nil {
+		verifReach("accepted")
+		verifAssert(n == want, "only-exact-size-accepted")
+	} else {
+		verifReach("refused")
+		verifAssert(len(zzAlerts) > 0, "refusal-sends-an-alert")
+	}
 }
